@@ -313,6 +313,53 @@ theorem vec_reserved_write_frame (s s' : VecOut) (r r' : Res) (bs : Bytes) (h : 
         · exact splice_get_after _ _ _ _ hj hb
       · intro j hj; exact splice_get_inside _ _ _ _ hj hb
 
+/-- the growable target never shrinks: after ANY operation — failed ones and writes through forged
+    reservations included — the vector is at least as long as before. -/
+theorem vec_step_length_monotone (st : VecSt) (op : OutOp) :
+    st.tgt.buf.length ≤ (st.step op).1.tgt.buf.length := by
+  cases op with
+  | write bs => simp [VecSt.step, VecOut.write]
+  | reserve k => simp [VecSt.step, VecOut.reserve]
+  | resv i bs =>
+    simp only [VecSt.step]
+    cases hr : st.res[i]? with
+    | none => simp
+    | some r =>
+      simp only
+      cases hw : st.tgt.writeRes r bs with
+      | error e => simp
+      | ok p =>
+        obtain ⟨t, r'⟩ := p
+        have := (vec_reserved_write_frame st.tgt t r r' bs hw).2.2.2.1
+        simp only
+        omega
+  | foreign a b bs =>
+    simp only [VecSt.step]
+    cases hw : st.tgt.writeRes ⟨a, b⟩ bs with
+    | error e => simp
+    | ok p =>
+      obtain ⟨t, r'⟩ := p
+      have := (vec_reserved_write_frame st.tgt t ⟨a, b⟩ r' bs hw).2.2.2.1
+      simp only
+      omega
+
+/-- … hence over every history, of any length, with any mixture of operations: the log is never
+    truncated. -/
+theorem vec_run_length_monotone (ops : List OutOp) : ∀ st : VecSt,
+    st.tgt.buf.length ≤ (st.run ops).tgt.buf.length := by
+  induction ops with
+  | nil => intro st; simp [VecSt.run]
+  | cons o os ih =>
+    intro st
+    have h1 := vec_step_length_monotone st o
+    have h2 := ih (st.step o).1
+    simp only [VecSt.run, List.foldl_cons] at h2 ⊢
+    omega
+
+/-- non-vacuity: a history with a write, a reservation, a partial fill and a forged range -/
+example : ((⟨⟨[1]⟩, []⟩ : VecSt).run [.write [2], .reserve 2, .resv 0 [9], .foreign 0 1 [7], .foreign 5 9 [7]]).tgt.buf = [7, 2, 9, 0] := by
+  decide
+
 /-! ### input source -/
 
 /-- reads yield exactly `buf[pos, pos+k)` and advance by `k`; peeks never advance; the cursor stays in
@@ -358,3 +405,5 @@ end Slicec.C12
 #print axioms Slicec.C12.vec_append_only
 #print axioms Slicec.C12.vec_reserved_write_frame
 #print axioms Slicec.C12.source_read
+#print axioms Slicec.C12.vec_step_length_monotone
+#print axioms Slicec.C12.vec_run_length_monotone
